@@ -1739,3 +1739,41 @@ mut("c19-lookup-key-trimmed-of-whitespace", "C19", "src/cgi/mod.rs",
     """        Self(match name.parse() {""",
     """        Self(match name.trim().parse() {""",
     "R19.5/from_compact/lookup-key", "the interning lookup ignores surrounding whitespace: ' HTTPS' is interned as HTTPS by the normalising constructors only")
+
+# ---- sweep b generalisations must not hide a break ----------------------------------------------------------
+mut("x-c06-next-multiple-of-4", "C06", "src/lib.rs",
+    """self.buffer_size.checked_next_multiple_of(8)""",
+    """self.buffer_size.checked_next_multiple_of(4)""",
+    "R6.3/aligned_bufsize", "rounded up to a multiple of 4 only (next_multiple_of spelling)", base="b6-r1")
+mut("x-c17-shift-spelling-bytes-swapped", "C17", "src/protocol/mod.rs",
+    """content_length: (u16::from(data[4]) << 8) | u16::from(data[5]),""",
+    """content_length: (u16::from(data[5]) << 8) | u16::from(data[4]),""",
+    "R17.7", "content length decoded little-endian (shift spelling of from_be_bytes)", base="b5-r1")
+mut("x-c17-next-multiple-of-padding-off", "C17", "src/protocol/mod.rs",
+    """self.padding_length = (wide.next_multiple_of(8) - wide) as u8;""",
+    """self.padding_length = ((wide + 1).next_multiple_of(8) - wide) as u8;""",
+    "R17.6/set_lengths", "padding one too large for aligned lengths (next_multiple_of spelling)", base="b5-r1")
+mut("x-c19-loop-returns-on-greater-only", "C19", "src/cgi/mod.rs",
+    """            if ord != std::cmp::Ordering::Equal {""",
+    """            if ord == std::cmp::Ordering::Greater {""",
+    "R19.3/varname-cmp", "the byte loop only leaves on Greater: a smaller byte is skipped over", base="b6-r4")
+mut("x-c15-long-bit-shifted-to-wrong-position", "C15", "src/protocol/varint.rs",
+    """(self.0 | (u32::from(Self::LONG_BIT) << 24)).to_be_bytes()""",
+    """(self.0 | (u32::from(Self::LONG_BIT) << 23)).to_be_bytes()""",
+    "O4/write", "the long-form marker lands in bit 6 of the first byte (or-into-word spelling)", base="b5-r2")
+mut("x-c03-values-loop-overcounts", "C03", "src/parser/stream.rs",
+    """                if raw_len < self.payload_rem.into() {
+                    payload_len - remaining""",
+    """                if raw_len < self.payload_rem.into() {
+                    payload_len - remaining + 1""",
+    "R3.11/stream::parse_payload", "one byte too many reported consumed after the explicit GetValues loop", base="b2-r5")
+mut("c03-values-arm-overcounts", "C03", "src/parser/stream.rs",
+    """                if raw_len < self.payload_rem.into() {
+                    payload_len - remaining""",
+    """                if raw_len < self.payload_rem.into() {
+                    payload_len - remaining + 1""",
+    "R3.11/stream::parse_payload", "one byte too many reported consumed for a partial GetValues body")
+mut("x-c19-cow-owned-through-str", "C19", "src/cgi/mod.rs",
+    """            Cow::Owned(o) => Self::from(o),""",
+    """            Cow::Owned(o) => Self::from(o.as_str()),""",
+    "R19.5/from-cow", "an owned Cow goes through the non-normalising &str constructor (Self::from spelling)", base="b6-r6")
